@@ -30,7 +30,7 @@ from __future__ import annotations
 
 import ast
 
-from ..astutil import attr_chain, callee_name, calls, is_name, is_self_attr, names_in, text, unwrap_await
+from ..astutil import call_recv, attr_chain, callee_name, calls, is_name, is_self_attr, names_in, text, unwrap_await
 from ..core import Result
 from ..model import AnchorMissing, Repo, fold_str, walk_no_nested
 
@@ -60,7 +60,7 @@ def evaluated_fields(fn_node) -> dict[str, int]:
     def base_field(e):
         e = unwrap_await(e)
         while isinstance(e, ast.Call) and isinstance(e.func, ast.Attribute) and e.func.attr in ("items", "values", "keys"):
-            e = e.func.value
+            e = call_recv(e)
         ch = attr_chain(e)
         if ch and ch[0] == "self" and len(ch) >= 2:
             return ch[1]
@@ -84,7 +84,7 @@ def evaluated_fields(fn_node) -> dict[str, int]:
             continue
         nm = callee_name(c)
         if nm in ("evaluate", "evaluate_async") and isinstance(c.func, ast.Attribute):
-            ch = attr_chain(c.func.value)
+            ch = attr_chain(call_recv(c))
             if not ch:
                 continue
             if ch[0] == "self" and len(ch) >= 2:
@@ -92,7 +92,7 @@ def evaluated_fields(fn_node) -> dict[str, int]:
             elif ch[0] in itervars:
                 out[itervars[ch[0]]] = c.lineno
                 VIA_ITEMS.add((id(fn_node), itervars[ch[0]]))
-        elif nm in ("resolve", "get", "get_async") and isinstance(c.func, ast.Attribute) and is_name(c.func.value, "context") and c.args:
+        elif nm in ("resolve", "get", "get_async") and isinstance(c.func, ast.Attribute) and is_name(call_recv(c), "context") and c.args:
             ch = attr_chain(c.args[0])
             if ch and ch[0] == "self" and len(ch) == 2:
                 out[ch[1]] = c.lineno
@@ -119,7 +119,7 @@ def rendered_fields(fn_node) -> dict[str, int]:
                     itervars[nm] = ch[1]
     for c in ast.walk(fn_node):
         if isinstance(c, ast.Call) and callee_name(c) in ("render", "render_async") and isinstance(c.func, ast.Attribute):
-            ch = attr_chain(c.func.value)
+            ch = attr_chain(call_recv(c))
             if not ch:
                 continue
             if ch[0] == "self" and len(ch) >= 2:
@@ -397,10 +397,10 @@ def run(repo: Repo) -> Result:
                 return None
 
             def loop_over(method):
-                return lambda x: isinstance(x, (ast.For, ast.AsyncFor)) and isinstance(x.iter, ast.Call) and callee_name(x.iter) == method and is_name_(x.iter.func.value, "node")
+                return lambda x: isinstance(x, (ast.For, ast.AsyncFor)) and isinstance(x.iter, ast.Call) and callee_name(x.iter) == method and is_name_(call_recv(x.iter), "node")
 
             p_expr = pos_of(loop_over("expressions"))
-            p_bind = pos_of(lambda x: isinstance(x, ast.Call) and callee_name(x) == "add" and is_name_(x.func.value, "scope"))
+            p_bind = pos_of(lambda x: isinstance(x, ast.Call) and callee_name(x) == "add" and is_name_(call_recv(x), "scope"))
             if p_expr is None or p_bind is None or not p_expr < p_bind:
                 res.add(
                     "C19-VISIT",
